@@ -1254,6 +1254,26 @@ def _self_calls(nodes):
     return out
 
 
+def _const_value(node):
+    """value of a closed constant expression (`False`, `not True`, `bool(0)`, `0`), else the sentinel `_const_value`"""
+    if isinstance(node, ast.Constant):
+        return node.value
+    try:
+        return eval(compile(ast.Expression(body=node), "<flag>", "eval"), {"__builtins__": {"bool": bool, "int": int, "float": float}}, {})
+    except Exception:
+        return _const_value
+
+
+def _is_const_false(node):
+    v = _const_value(node)
+    return v is not _const_value and isinstance(v, (bool, int, float)) and not v
+
+
+def _is_const_true(node):
+    v = _const_value(node)
+    return v is not _const_value and isinstance(v, (bool, int, float)) and bool(v)
+
+
 def find_cached_getters(cls):
     """[(getter name, flag, defining class, kind)]: functions containing `if self.<flag>: ...; self.<flag> = False`
     (the reset may be in the if-body or in a method the body calls)"""
@@ -1272,7 +1292,7 @@ def find_cached_getters(cls):
                 for st in x.body:
                     for y in ast.walk(st):
                         if isinstance(y, ast.Assign) and any(_is_self_attr(t, flag) for t in y.targets) \
-                                and isinstance(y.value, ast.Constant) and y.value.value is False:
+                                and _is_const_false(y.value):
                             cleared = True
                 if cleared:
                     found.append((name, flag, k, kind))
@@ -1351,7 +1371,7 @@ def handler_static(cls, hname):
                 loopy = True
             if _is_self_attr(x) and isinstance(x.ctx, ast.Load) and not x.attr.startswith("fire_"):
                 loads.add(x.attr)
-            if isinstance(x, ast.Assign) and isinstance(x.value, ast.Constant) and x.value.value is True:
+            if isinstance(x, ast.Assign) and _is_const_true(x.value):
                 for t in x.targets:
                     if _is_self_attr(t):
                         sets.add(t.attr)
@@ -1896,7 +1916,7 @@ def getter_shape(cls, name, flag):
             shape["statements_after_reset"] = [ast.unparse(st)[:100] for st in body[idx[-1] + 1:]] if idx else []
             break
     other_sets = [ast.unparse(y)[:80] for y in ast.walk(node) if isinstance(y, ast.Assign) and any(_is_self_attr(t, flag) for t in y.targets)
-                  and isinstance(y.value, ast.Constant) and y.value.value is True]
+                  and _is_const_true(y.value)]
     shape["sets_flag_true_itself"] = other_sets
     return shape
 
